@@ -206,9 +206,8 @@ class Formatter(FormatterInterface):
         """Format a statement."""
         return self(s.expr)
 
-    @__call__.register(L.Assign)
-    @__call__.register(L.AssignAdd)
-    def _(self, expr: L.Assign | L.AssignAdd) -> str:
+    @__call__.register
+    def _(self, expr: L.AssignOp) -> str:
         """Format an assignment."""
         rhs = self(expr.rhs)
         lhs = self(expr.lhs)
